@@ -148,9 +148,13 @@ func (s *Svc) answer(ctx context.Context, name string, cond bool, old uint32) (*
 		sched.Seam("svc.request(" + name + ")")
 	}
 	s.mu.Lock()
-	s.inflt[name]++
-	if s.inflt[name] > s.MaxInfl[name] {
-		s.MaxInfl[name] = s.inflt[name]
+	ik := name
+	if cond {
+		ik = "poll:" + name
+	}
+	s.inflt[ik]++
+	if s.inflt[ik] > s.MaxInfl[ik] {
+		s.MaxInfl[ik] = s.inflt[ik]
 	}
 	req := Req{Name: name, Cond: cond, Old: old, At: s.now(), Seq: s.seq()}
 	idx := len(s.Log)
@@ -174,7 +178,7 @@ func (s *Svc) answer(ctx context.Context, name string, cond bool, old uint32) (*
 	}
 	done := func(res string) {
 		s.mu.Lock()
-		s.inflt[name]--
+		s.inflt[ik]--
 		s.Log[idx].Result = res
 		s.mu.Unlock()
 	}
@@ -202,7 +206,7 @@ func (s *Svc) answer(ctx context.Context, name string, cond bool, old uint32) (*
 	}
 	s.mu.Lock()
 	defer s.mu.Unlock()
-	s.inflt[name]--
+	s.inflt[ik]--
 	sec := s.S[name]
 	if sec == nil {
 		s.Log[idx].Result = "notfound"
